@@ -30,7 +30,10 @@ CONSTANTS RefIn, RefOut, SimpleMerge,
           Collide,     \* hash collisions (hash = parity of the lattice index)
           LinModes,    \* subset of {"all", "sub"}
           ExecFlags,   \* subset of BOOLEAN: values of linearize(execute=...)
-          LitXs        \* lattice indices passed as fresh literal arrays (not cells)
+          LitXs,       \* lattice indices passed as fresh literal arrays (not cells)
+          LinZArgs,    \* how "z" is passed to linearize (subset of ZArgs)
+          AnyMatch     \* with a tolerance, a full cache may serve ANY stored input within tolerance (the
+                       \* property leaves the choice open); FALSE: the first one in scan order, as coded
 
 VARIABLES entries,   \* sequence of entry records (index order of the cache)
           dHasJac,   \* discipline._has_jacobian
@@ -42,6 +45,9 @@ vars  == <<avars, ivars>>
 
 NoCell == "lit"
 H(p) == IF Collide THEN <<p[1] % 2, 0>> ELSE p
+\* the hash table, printed once so that the harness can give the real caches a hash function with exactly
+\* these collisions (test double for the hash library, see c05.py)
+ASSUME PrintT(<<"HASH", [p \in Points |-> H(p)]>>)
 \* what the stored groups of an entry read NOW
 StoredIn(e)  == IF RefIn /\ e.ref # NoCell THEN <<cell[e.ref], e.in[2]>> ELSE e.in
 StoredOut(e) == IF RefOut /\ Inplace THEN buf ELSE e.osrc
@@ -88,10 +94,17 @@ WithJacobian(es, x, ref, i, l) ==
 
 NoJac == [src |-> P0, lvl |-> 0]
 
-\* ---- BaseDiscipline.execute as a function of the current state: the record of its effects
-ExecEffect(x, ref) ==
-    LET i == IF Kind = "none" THEN 0 ELSE Lookup(x)
-        hit == i # 0 /\ entries[i].hasOut
+\* the entries a lookup may return (a single one unless AnyMatch)
+LookupSet(x) ==
+    IF Kind = "none" THEN {0}
+    ELSE IF AnyMatch /\ Tol > 0 /\ Full
+    THEN LET c == {i \in Idx : MatchTol(x, StoredIn(entries[i]))} IN IF c = {} THEN {0} ELSE c
+    ELSE {Lookup(x)}
+
+\* ---- BaseDiscipline.execute as a function of the current state and of the entry i the lookup
+\*      returned (0: none): the record of its effects
+ExecEffect(x, ref, i) ==
+    LET hit == i # 0 /\ entries[i].hasOut
     IN IF hit
        THEN [ran |-> FALSE, src |-> StoredOut(entries[i]), es |-> entries, hj |-> TRUE,
              jac |-> IF entries[i].jl > 0 THEN [src |-> entries[i].jsrc, lvl |-> entries[i].jl] ELSE NoJac,
@@ -101,14 +114,16 @@ ExecEffect(x, ref) ==
              hj |-> FALSE, jac |-> dJac, buf |-> x]
 
 DoExecute(x, ref) ==
-    LET f == ExecEffect(x, ref)
+    \E i \in LookupSet(x) :
+    LET f == ExecEffect(x, ref, i)
         r == [NoRet EXCEPT !.op = "exec", !.x = x, !.hasOut = TRUE, !.src = f.src, !.ran = f.ran]
     IN /\ entries' = f.es /\ dHasJac' = f.hj /\ dJac' = f.jac /\ buf' = f.buf
        /\ Observe(r) /\ UNCHANGED <<cell, diffLvl>>
 
 \* ---- Discipline.linearize(x, compute_all_jacobians = (req = 3), execute = ex)
 DoLinearize(x, ref, req, ex) ==
-    LET f   == IF ex THEN ExecEffect(x, ref)
+    \E i \in LookupSet(x) :
+    LET f   == IF ex THEN ExecEffect(x, ref, i)
                ELSE [ran |-> FALSE, src |-> P0, es |-> entries, hj |-> dHasJac, jac |-> dJac, buf |-> buf]
         \* "if self._has_jacobian and self.jac" and the requested pairs are all there
         reuse == f.hj /\ f.jac.lvl >= req
@@ -126,6 +141,7 @@ DoLinearize(x, ref, req, ex) ==
 \* (the leading conjunct keeps the action's own name and arguments on the edges of the dumped graph)
 Execute(c, za)    == /\ c \in Cells /\ DoExecute(<<cell[c], ZI(za)>>, c)
 ExecuteLit(xi)    == /\ xi \in XI /\ DoExecute(<<xi, 0>>, NoCell)
+LinearizeLit(xi)  == /\ xi \in XI /\ DoLinearize(<<xi, 0>>, NoCell, 3, TRUE)
 Linearize(c, za, mode, ex) ==
     /\ (mode = "sub" => diffLvl >= 1)
     /\ DoLinearize(<<cell[c], ZI(za)>>, c, IF mode = "all" THEN 3 ELSE diffLvl, ex)
@@ -150,8 +166,8 @@ Init == /\ cell = [c \in Cells |-> IF c = "c1" THEN 1 ELSE 2]
         /\ HInit
         /\ entries = <<>> /\ dHasJac = FALSE /\ dJac = NoJac /\ diffLvl = 0 /\ buf = P0
 Next == \/ \E c \in Cells, za \in ZArgs : Execute(c, za)
-        \/ \E xi \in LitXs : ExecuteLit(xi)
-        \/ \E c \in Cells, za \in ZArgs, m \in LinModes, ex \in ExecFlags : Linearize(c, za, m, ex)
+        \/ \E xi \in LitXs : ExecuteLit(xi) \/ LinearizeLit(xi)
+        \/ \E c \in Cells, za \in LinZArgs, m \in LinModes, ex \in ExecFlags : Linearize(c, za, m, ex)
         \/ \E c \in Cells, v \in XI : MutateCell(c, v)
         \/ SetDiff \/ ClearCache \/ SetCache \/ Reopen
 ISpec == Init /\ [][Next]_vars
